@@ -260,15 +260,21 @@ pub fn generate(rng: &mut Rng, mode: Mode, form: Form) -> Graph {
                 }
             }
             let w = [
-                8,
-                3,
+                16,
+                6,
+                2,
+                if open.len() < 3 { 4 } else { 0 },
+                if open.last() == Some(&false) { 2 } else { 0 },
+                if open.last() == Some(&false) { 2 } else { 0 },
+                if !open.is_empty() { 4 } else { 0 },
+                2,
+                if form == Form::Pre { 2 } else { 0 },
+                // #pragma once anywhere, also inside conditional regions
                 1,
-                if open.len() < 3 { 2 } else { 0 },
-                if open.last() == Some(&false) { 1 } else { 0 },
-                if open.last() == Some(&false) { 1 } else { 0 },
-                if !open.is_empty() { 2 } else { 0 },
-                1,
+                // a name of the macro pool (re)defined as the function-like paste macro, and
+                // uses of pool names with an argument list
                 if form == Form::Pre { 1 } else { 0 },
+                if form == Form::Pre { 2 } else { 0 },
             ];
             match weighted(rng, &w) {
                 0 => {
@@ -333,8 +339,28 @@ pub fn generate(rng: &mut Rng, mode: Mode, form: Form) -> Graph {
                     open.pop();
                 }
                 7 => lines.push(
-                    ["", "// comment", "/* comment */", "   "][rng.below(4) as usize].to_string(),
+                    [
+                        "",
+                        "// comment",
+                        "/* comment */",
+                        "   ",
+                        "// \u{2500}\u{2500}\u{2500} helpers \u{2500}\u{2500}\u{2500}",
+                        "/* \u{a9} 2023 */",
+                    ][rng.below(6) as usize]
+                        .to_string(),
                 ),
+                9 => lines.push(hash(rng, "#pragma once")),
+                10 => {
+                    let m = *rng.pick(MACROS);
+                    lines.push(hash(rng, &format!("#define {m}(a,b) a##b")));
+                }
+                11 => {
+                    counter += 1;
+                    let m = *rng.pick(MACROS);
+                    let l = ["u", "v", "w"][rng.below(3) as usize];
+                    let r = rng.range(1, 9);
+                    lines.push(format!("m_{i}_{counter} {m}({l},{r}) ;"));
+                }
                 _ => {
                     counter += 1;
                     let r = if rng.chance(1, 2) {
@@ -367,6 +393,9 @@ pub fn generate(rng: &mut Rng, mode: Mode, form: Form) -> Graph {
         let mut text = lines.join("\n");
         if !rng.chance(1, 8) {
             text.push('\n');
+        }
+        if rng.chance(1, 60) {
+            text.push_str("/* a comment that never ends\n");
         }
         fs.files.insert(paths[i].clone(), text);
     }
